@@ -293,5 +293,6 @@ func gen(g *hx.Gen) {
 	genLarge(g)
 	genAsym(g)
 	genValueBounds(g)
+	genHarden(g)
 	genSort(g)
 }
